@@ -11,7 +11,7 @@
    is received in t + L when the node is not paused in t..t+L (<=, and == if it was never paused before), for
    supplier edges (L = shipment lead time) and for the external supplier (L = order + shipment lead time). *)
 From SV Require Import Sim.Model Sim.Inv_book Sim.Inv_pipe Sim.Inv_run Sim.Main Sim.Example Sim.Single Sim.ShipDelay.
-From SV Require Import Sim2.State2 Sim2.Model2 Sim2.Inv2b_tac Sim2.Inv2b_book Sim2.Inv2b_pipe Sim2.Inv2b_init Sim2.Main2b.
+From SV Require Import Sim2.State2 Sim2.Model2 Sim2.Inv2b_tac Sim2.Inv2b_book Sim2.Inv2b_pipe Sim2.Inv2b_init Sim2.Main2b Sim2.Delay2 Sim2.DlCumul2 Sim2.ShipDelay2 Sim2.Main2d.
 
 Section C03.
 Variable (NW : net) (inputs : list ((N -> bool) * (N -> Q))).
@@ -103,6 +103,200 @@ Theorem C03_multi_pipeline_lengths : forall (NW : net2) (inputs : inputs2), good
   (forall p c k, cus_edge NW p (Nd c) k -> length (gl2 e (fOP, p, Nd c, k)) = (n_olt (cfg2 NW c) + 1)%nat).
 Proof. exact pipeline_lengths2. Qed.
 
+(* positional lead times for multi-product networks (Sim2/Delay2.v, ShipDelay2.v, DlCumul2.v, Main2d.v): the order a node places with a supplier for a raw
+   material in t (all its products together) is the supplier's inbound order in t + OLT; receipts / held items / pipelines refine the reference delay line
+   of Sim/ShipDelay.v, incl. transit- and receipt-pausing disruptions; nothing is lost: once the pipeline has advanced SLT times and receipt is not paused,
+   everything sent so far (and the initial pipeline) has been received *)
+Theorem C03_multi_order_delay :
+  forall (NW : net2) (inputs : inputs2),
+         Main2b.goodB2b NW = true ->
+         Main2b.onceB2b NW = true ->
+         forall (t : nat) (n p r : N),
+         Inv2b_tac.sup_edge NW n (Nd p) r ->
+         (t + n_olt (cfg2 NW n) < length inputs)%nat ->
+         gq2 (nth (t + n_olt (cfg2 NW n)) (run2 NW inputs) empty_st2)
+           (fIO, p, Nd n, r) ==
+         gq2 (nth t (run2 NW inputs) empty_st2) (fOQ, n, Nd p, r).
+Proof. exact order_delayD2. Qed.
+Theorem C03_multi_order_delay_initial :
+  forall (NW : net2) (inputs : inputs2),
+         Main2b.goodB2b NW = true ->
+         Main2b.onceB2b NW = true ->
+         forall (t : nat) (n p r : N),
+         Inv2b_tac.sup_edge NW n (Nd p) r ->
+         (t < n_olt (cfg2 NW n))%nat ->
+         (t < length inputs)%nat ->
+         gq2 (nth t (run2 NW inputs) empty_st2) (fIO, p, Nd n, r) ==
+         n_init_orders (cfg2 NW n).
+Proof. exact order_delayD2_initial. Qed.
+Theorem C03_multi_shipment_refinement :
+  forall (NW : net2) (inputs : inputs2),
+         Main2b.goodB2b NW = true ->
+         Main2b.onceB2b NW = true ->
+         forall (t : nat) (n p r : N),
+         Inv2b_tac.sup_edge NW n (Nd p) r ->
+         (t < length inputs)%nat ->
+         gq2 (nth t (run2 NW inputs) empty_st2) (fIS, n, Nd p, r) ==
+         snd (nth t (ship_refD2 NW inputs n p r) ShipDelay.dout) /\
+         gq2 (nth t (run2 NW inputs) empty_st2) (fIDI, n, Nd p, r) ==
+         ShipDelay.d_held
+           (fst (nth t (ship_refD2 NW inputs n p r) ShipDelay.dout)) /\
+         Single.leq (gl2 (nth t (run2 NW inputs) empty_st2) (fSP, n, Nd p, r))
+           (ShipDelay.d_pipe
+              (fst (nth t (ship_refD2 NW inputs n p r) ShipDelay.dout))).
+Proof. exact shipment_refinementD2. Qed.
+Theorem C03_multi_shipment_delay :
+  forall (NW : net2) (inputs : inputs2),
+         Main2b.goodB2b NW = true ->
+         Main2b.onceB2b NW = true ->
+         forall (t : nat) (n p r : N),
+         Inv2b_init.demB_ok2 inputs ->
+         Inv2b_tac.sup_edge NW n (Nd p) r ->
+         (t + n_slt (cfg2 NW n) < length inputs)%nat ->
+         (forall u : nat,
+          (t <= u <= t + n_slt (cfg2 NW n))%nat -> unpausedD2 NW inputs n u) ->
+         gq2 (nth t (run2 NW inputs) empty_st2) (fOS, p, Nd n, r) <=
+         gq2 (nth (t + n_slt (cfg2 NW n)) (run2 NW inputs) empty_st2)
+           (fIS, n, Nd p, r).
+Proof. exact shipment_delayD2. Qed.
+Theorem C03_multi_shipment_delay_exact :
+  forall (NW : net2) (inputs : inputs2),
+         Main2b.goodB2b NW = true ->
+         Main2b.onceB2b NW = true ->
+         forall (t : nat) (n p r : N),
+         Inv2b_tac.sup_edge NW n (Nd p) r ->
+         (t + n_slt (cfg2 NW n) < length inputs)%nat ->
+         (forall u : nat,
+          (u <= t + n_slt (cfg2 NW n))%nat -> unpausedD2 NW inputs n u) ->
+         gq2 (nth (t + n_slt (cfg2 NW n)) (run2 NW inputs) empty_st2)
+           (fIS, n, Nd p, r) ==
+         gq2 (nth t (run2 NW inputs) empty_st2) (fOS, p, Nd n, r).
+Proof. exact shipment_delayD2_exact. Qed.
+Theorem C03_multi_external_refinement :
+  forall (NW : net2) (inputs : inputs2),
+         Main2b.goodB2b NW = true ->
+         Main2b.onceB2b NW = true ->
+         forall (t : nat) (n r : N),
+         Inv2b_tac.sup_edge NW n Ext r ->
+         (t < length inputs)%nat ->
+         gq2 (nth t (run2 NW inputs) empty_st2) (fIS, n, Ext, r) ==
+         snd (nth t (ext_refD2 NW inputs n r) ShipDelay.dout) /\
+         gq2 (nth t (run2 NW inputs) empty_st2) (fIDI, n, Ext, r) ==
+         ShipDelay.d_held
+           (fst (nth t (ext_refD2 NW inputs n r) ShipDelay.dout)) /\
+         Single.leq (gl2 (nth t (run2 NW inputs) empty_st2) (fSP, n, Ext, r))
+           (ShipDelay.d_pipe
+              (fst (nth t (ext_refD2 NW inputs n r) ShipDelay.dout))).
+Proof. exact external_refinementD2. Qed.
+Theorem C03_multi_external_delay :
+  forall (NW : net2) (inputs : inputs2),
+         Main2b.goodB2b NW = true ->
+         Main2b.onceB2b NW = true ->
+         forall (t : nat) (n r : N),
+         Inv2b_init.demB_ok2 inputs ->
+         Inv2b_tac.sup_edge NW n Ext r ->
+         (t + (n_olt (cfg2 NW n) + n_slt (cfg2 NW n)) < length inputs)%nat ->
+         (forall u : nat,
+          (t <= u <= t + (n_olt (cfg2 NW n) + n_slt (cfg2 NW n)))%nat ->
+          unpausedD2 NW inputs n u) ->
+         gq2 (nth t (run2 NW inputs) empty_st2) (fOQ, n, Ext, r) <=
+         gq2
+           (nth (t + (n_olt (cfg2 NW n) + n_slt (cfg2 NW n))) 
+              (run2 NW inputs) empty_st2) (fIS, n, Ext, r).
+Proof. exact external_delayD2. Qed.
+Theorem C03_multi_external_delay_exact :
+  forall (NW : net2) (inputs : inputs2),
+         Main2b.goodB2b NW = true ->
+         Main2b.onceB2b NW = true ->
+         forall (t : nat) (n r : N),
+         Inv2b_tac.sup_edge NW n Ext r ->
+         (t + (n_olt (cfg2 NW n) + n_slt (cfg2 NW n)) < length inputs)%nat ->
+         (forall u : nat,
+          (u <= t + (n_olt (cfg2 NW n) + n_slt (cfg2 NW n)))%nat ->
+          unpausedD2 NW inputs n u) ->
+         gq2
+           (nth (t + (n_olt (cfg2 NW n) + n_slt (cfg2 NW n))) 
+              (run2 NW inputs) empty_st2) (fIS, n, Ext, r) ==
+         gq2 (nth t (run2 NW inputs) empty_st2) (fOQ, n, Ext, r).
+Proof. exact external_delayD2_exact. Qed.
+Theorem C03_multi_shipment_not_lost :
+  forall (NW : net2) (inputs : inputs2),
+         Main2b.goodB2b NW = true ->
+         Main2b.onceB2b NW = true ->
+         forall (t k : nat) (n p r : N),
+         Inv2b_init.demB_ok2 inputs ->
+         Inv2b_tac.sup_edge NW n (Nd p) r ->
+         (t + k < length inputs)%nat ->
+         (n_slt (cfg2 NW n) <= advancesD2 NW inputs n t k)%nat ->
+         disk2 NW (i_dis (nth (t + k) inputs Inv2b_period.dflt_input2)) n dRP =
+         false ->
+         n_init_ships (cfg2 NW n) * qnat (n_slt (cfg2 NW n)) +
+         qsum_range
+           (fun u : nat =>
+            gq2 (nth u (run2 NW inputs) empty_st2) (fOS, p, Nd n, r)) 0 
+           (S t) <=
+         qsum_range
+           (fun u : nat =>
+            gq2 (nth u (run2 NW inputs) empty_st2) (fIS, n, Nd p, r)) 0
+           (S (t + k)).
+Proof. exact shipment_not_lostD2. Qed.
+Example C03_multi_delay_nonvacuous : Main2b.goodB2b exD2_net = true /\
+         Main2b.onceB2b exD2_net = true /\
+         Inv2b_init.demB_ok2 exD2_inputs /\
+         (Inv2b_tac.sup_edge exD2_net 3 (Nd 1) 10 /\
+          Inv2b_tac.sup_edge exD2_net 3 (Nd 2) 10 /\
+          Inv2b_tac.sup_edge exD2_net 1 Ext 100) /\
+         n_olt (cfg2 exD2_net 3) = 1%nat /\
+         n_slt (cfg2 exD2_net 3) = 2%nat /\
+         (n_olt (cfg2 exD2_net 1) + n_slt (cfg2 exD2_net 1))%nat = 2%nat /\
+         0 < gq2 (exD2_rec 5) (fOQFG, 3%N, Ext, 30%N) /\
+         0 < gq2 (exD2_rec 5) (fOQFG, 3%N, Ext, 31%N) /\
+         gq2 (exD2_rec 5) (fOQ, 3%N, Nd 1, 10%N) ==
+         2 * gq2 (exD2_rec 5) (fOQFG, 3%N, Ext, 30%N) +
+         3 * gq2 (exD2_rec 5) (fOQFG, 3%N, Ext, 31%N) /\
+         gq2 (exD2_rec 6) (fIO, 1%N, Nd 3, 10%N) ==
+         gq2 (exD2_rec 5) (fOQ, 3%N, Nd 1, 10%N) /\
+         gq2 (exD2_rec 0) (fIO, 1%N, Nd 3, 10%N) ==
+         n_init_orders (cfg2 exD2_net 3) /\
+         (forall u : nat,
+          (u <= 3 + 2)%nat -> unpausedD2 exD2_net exD2_inputs 3 u) /\
+         0 < gq2 (exD2_rec 3) (fOS, 1%N, Nd 3, 10%N) /\
+         gq2 (exD2_rec 5) (fIS, 3%N, Nd 1, 10%N) ==
+         gq2 (exD2_rec 3) (fOS, 1%N, Nd 3, 10%N) /\
+         ~ unpausedD2 exD2_net exD2_inputs 3 6 /\
+         gq2 (exD2_rec 7) (fIS, 3%N, Nd 1, 10%N) <
+         gq2 (exD2_rec 5) (fOS, 1%N, Nd 3, 10%N) /\
+         gq2 (exD2_rec 8) (fIS, 3%N, Nd 1, 10%N) ==
+         gq2 (exD2_rec 5) (fOS, 1%N, Nd 3, 10%N) /\
+         (forall u : nat,
+          (7 <= u <= 7 + 2)%nat -> unpausedD2 exD2_net exD2_inputs 3 u) /\
+         gq2 (exD2_rec 7) (fOS, 1%N, Nd 3, 10%N) <
+         gq2 (exD2_rec 9) (fIS, 3%N, Nd 1, 10%N) /\
+         snd (nth 8 (ship_refD2 exD2_net exD2_inputs 3 1 10) ShipDelay.dout) ==
+         12 /\
+         advancesD2 exD2_net exD2_inputs 3 5 3 = 2%nat /\
+         disk2 exD2_net
+           (i_dis (nth (5 + 3) exD2_inputs Inv2b_period.dflt_input2)) 3 dRP =
+         false /\
+         qsum_range (fun u : nat => gq2 (exD2_rec u) (fOS, 1%N, Nd 3, 10%N)) 0
+           6 == 26 /\
+         qsum_range (fun u : nat => gq2 (exD2_rec u) (fIS, 3%N, Nd 1, 10%N)) 0
+           9 == 32 /\
+         (forall u : nat,
+          (u <= 3 + 2)%nat -> unpausedD2 exD2_net exD2_inputs 1 u) /\
+         0 < gq2 (exD2_rec 3) (fOQ, 1%N, Ext, 100%N) /\
+         gq2 (exD2_rec 5) (fIS, 1%N, Ext, 100%N) ==
+         gq2 (exD2_rec 3) (fOQ, 1%N, Ext, 100%N) /\
+         ~ unpausedD2 exD2_net exD2_inputs 1 7 /\
+         0 < gq2 (exD2_rec 5) (fOQ, 1%N, Ext, 100%N) /\
+         gq2 (exD2_rec 7) (fIS, 1%N, Ext, 100%N) == 0 /\
+         gq2 (exD2_rec 7) (fIDI, 1%N, Ext, 100%N) ==
+         gq2 (exD2_rec 5) (fOQ, 1%N, Ext, 100%N) /\
+         gq2 (exD2_rec 8) (fIS, 1%N, Ext, 100%N) ==
+         gq2 (exD2_rec 5) (fOQ, 1%N, Ext, 100%N) +
+         gq2 (exD2_rec 6) (fOQ, 1%N, Ext, 100%N).
+Proof. exact main2d_nonvacuous. Qed.
+
 (* a transit pause delays a shipment by one period, a receipt pause holds an external order at the door (two-node network sd_net) *)
 Example C03_shipment_delay_nonvacuous :
   good sd_net /\ dem_ok sd_inputs /\ 0 < gq (sd_rec 2) (fOS, 1%N, Nd 2%N) /\ gq (sd_rec 4) (fIS, 2%N, Nd 1%N) == gq (sd_rec 2) (fOS, 1%N, Nd 2%N) /\
@@ -127,3 +321,12 @@ Print Assumptions C03_multi_on_order_exact_external.
 Print Assumptions C03_multi_order_ledger.
 Print Assumptions C03_multi_nothing_lost.
 Print Assumptions C03_multi_pipeline_lengths.
+Print Assumptions C03_multi_order_delay.
+Print Assumptions C03_multi_order_delay_initial.
+Print Assumptions C03_multi_shipment_refinement.
+Print Assumptions C03_multi_shipment_delay.
+Print Assumptions C03_multi_shipment_delay_exact.
+Print Assumptions C03_multi_external_refinement.
+Print Assumptions C03_multi_external_delay.
+Print Assumptions C03_multi_external_delay_exact.
+Print Assumptions C03_multi_shipment_not_lost.
